@@ -33,13 +33,17 @@ def Agrees (st' st : St) (e : Effect) : Prop :=
   st'.lh = st.lh ∧ st'.vRib = st.vRib ∧ st'.vFib = st.vFib ∧ st'.vSc = st.vSc ∧ st'.vCs = st.vCs ∧
   st'.vFaces = st.vFaces ∧ st'.vStatus = st.vStatus ∧
   st'.sc = e.t.sc ∧ st'.cs = e.t.cs ∧ st'.faces = e.t.faces ∧
-  (e.fibFree = false → st'.fib = e.t.fib) ∧ (e.ribFree = false → st'.rib = e.t.rib)
+  (e.fibFree = false → st'.fib = e.t.fib) ∧ (e.ribFree = false → st'.rib = e.t.rib) ∧
+  st'.nextFace = st.nextFace + e.consumesId.toNat ∧ e.ok = true
+
+/-- the id a created face gets in the model: the face table's counter -/
+def modelNewId (v : Verb) (st : St) : Nat := match v with | .faceCreate => st.nextFace | _ => 0
 
 /-- the result `res` of a verb handler is what the specification prescribes -/
 def Char (st : St) (inFace : Nat) (v : Verb) (name : Name) (p : Params) (res : St × Resp) : Prop :=
   match validity (tablesOf st) inFace v (hasParams name) p with
-  | .valid => ∃ a, p = .args a ∧ res.2 = .ctrl 200 (effect (tablesOf st) inFace v a).echo ∧
-      Agrees res.1 st (effect (tablesOf st) inFace v a)
+  | .valid => ∃ a, p = .args a ∧ res.2 = .ctrl 200 (effect (tablesOf st) inFace v a (modelNewId v st)).echo ∧
+      Agrees res.1 st (effect (tablesOf st) inFace v a (modelNewId v st))
   | _ => res.1 = st ∧ ∃ c e, res.2 = .ctrl c e ∧ 400 ≤ c ∧ c < 500
 
 theorem pickFace_eq (a : Args) (f : Nat) : pickFace a f = targetFace a f := by
@@ -54,6 +58,8 @@ theorem ribRegister_char (st : St) (ext : Ext) (f : Nat) (name : Name) (p : Para
   · simp only [hp]
     cases p with
     | undecodable => simp [r400]
+    | filter q => simp [r400]
+    | app k => simp [r400]
     | args a =>
       cases hn : a.name with
       | none => simp [r400, hn]
@@ -84,6 +90,8 @@ theorem ribUnregister_char (st : St) (ext : Ext) (f : Nat) (name : Name) (p : Pa
   · simp only [hp]
     cases p with
     | undecodable => simp [r400]
+    | filter q => simp [r400]
+    | app k => simp [r400]
     | args a =>
       cases hn : a.name with
       | none => simp [r400, hn]
@@ -97,6 +105,8 @@ theorem fibAdd_char (st : St) (f : Nat) (name : Name) (p : Params) :
   · simp only [hp]
     cases p with
     | undecodable => simp [r400]
+    | filter q => simp [r400]
+    | app k => simp [r400]
     | args a =>
       cases hn : a.name with
       | none => simp [r400, hn]
@@ -118,6 +128,8 @@ theorem fibRemove_char (st : St) (f : Nat) (name : Name) (p : Params) :
   · simp only [hp]
     cases p with
     | undecodable => simp [r400]
+    | filter q => simp [r400]
+    | app k => simp [r400]
     | args a =>
       cases hn : a.name with
       | none => simp [r400, hn]
@@ -188,6 +200,8 @@ theorem scSet_char (st : St) (f : Nat) (name : Name) (p : Params) :
   · simp only [hp]
     cases p with
     | undecodable => simp [r400]
+    | filter q => simp [r400]
+    | app k => simp [r400]
     | args a =>
       cases hn : a.name with
       | none => simp [r400, hn]
@@ -207,6 +221,8 @@ theorem scUnset_char (st : St) (f : Nat) (name : Name) (p : Params) :
   · simp only [hp]
     cases p with
     | undecodable => simp [r400]
+    | filter q => simp [r400]
+    | app k => simp [r400]
     | args a =>
       cases hn : a.name with
       | none => simp [r400, hn]
@@ -223,6 +239,8 @@ theorem csConfig_char (st : St) (f : Nat) (name : Name) (p : Params) :
   · simp only [hp]
     cases p with
     | undecodable => simp [r400]
+    | filter q => simp [r400]
+    | app k => simp [r400]
     | args a =>
       by_cases hfm : a.flags.isSome = a.mask.isSome
       · cases hk : a.capacity with
@@ -243,6 +261,8 @@ theorem faceDestroy_char (st : St) (ext : Ext) (f : Nat) (name : Name) (p : Para
   · simp only [hp]
     cases p with
     | undecodable => simp [r400]
+    | filter q => simp [r400]
+    | app k => simp [r400]
     | args a =>
       cases hf : a.faceId with
       | none => simp [r400, hf]
@@ -299,6 +319,8 @@ theorem faceUpdate_char (st : St) (f : Nat) (name : Name) (p : Params) (hwf : Fa
   · simp only [hp]
     cases p with
     | undecodable => simp [r400]
+    | filter q => simp [r400]
+    | app k => simp [r400]
     | args a =>
       simp only [pickFace_eq, tablesOf]
       cases hg : faceGet st.faces (targetFace a f) with
@@ -328,23 +350,84 @@ theorem faceUpdate_char (st : St) (f : Nat) (name : Name) (p : Params) (hwf : Fa
   · simp [hp, r400]
 
 
+theorem faceGet_none_of_below {fs : List Face} {n : Nat} (h : ∀ g ∈ fs, g.id < n) : faceGet fs n = none := by
+  unfold faceGet
+  apply List.find?_eq_none.2
+  intro g hg
+  have := h g hg
+  simp; omega
+
+theorem createOn_char (st : St) (f : Nat) (name : Name) (a : Args) (u : Bytes) (c : UriClass) (canon : String)
+    (hp : hasParams name = true) (hu : a.uri = some u) (hc : uriClass u = some c)
+    (hcc : c = .udp canon ∨ c = .tcp canon) (hid : ∀ g ∈ st.faces, g.id < st.nextFace) :
+    Char st f .faceCreate name (.args a) (createOn st a c canon) := by
+  have hfresh := faceGet_none_of_below hid
+  unfold Char createOn validity
+  simp only [hp, hu, hc, tablesOf]
+  by_cases hfm : flagsMaskOk a.flags a.mask = true
+  · by_cases hex : (st.faces.find? fun g => g.uri == canon).isSome = true
+    · obtain ⟨ex, hexs⟩ := Option.isSome_iff_exists.1 hex
+      by_cases okM : mtuOk a.mtu = true
+      · rcases hcc with rfl | rfl <;> simp [hfm, hex, hexs, okM]
+      · rcases hcc with rfl | rfl <;> simp [hfm, hex, okM]
+    · have hnone : (st.faces.find? fun g => g.uri == canon) = none := by
+        cases h : (st.faces.find? fun g => g.uri == canon) <;> simp_all
+      by_cases okP : createPersOk a.pers = true
+      · by_cases okM : mtuOk a.mtu = true
+        · have hv : mtuClass a.mtu = .valid := (mtuOk_iff _).1 okM
+          rcases hcc with rfl | rfl <;>
+            simp [hfm, hnone, okP, okM, hv, Agrees, effect, hu, hc, modelNewId, hfresh, Option.bind]
+        · have hv : mtuClass a.mtu ≠ .valid := fun h => okM ((mtuOk_iff _).2 h)
+          rcases hcc with rfl | rfl <;> simp only [hfm, hnone, okP, okM] <;> simp <;> (try (split <;> simp_all))
+      · by_cases okM : mtuOk a.mtu = true
+        · rcases hcc with rfl | rfl <;> simp [hfm, hnone, okP, okM]
+        · rcases hcc with rfl | rfl <;> simp [hfm, hnone, okP, okM]
+  · rcases hcc with rfl | rfl <;> simp [hfm]
+
+theorem faceCreate_char (st : St) (f : Nat) (name : Name) (p : Params)
+    (hid : ∀ g ∈ st.faces, g.id < st.nextFace) :
+    Char st f .faceCreate name p (faceCreate st name p) := by
+  by_cases hp : hasParams name = true
+  · cases p with
+    | undecodable => simp [Char, faceCreate, validity, hp, r400]
+    | filter q => simp [Char, faceCreate, validity, hp, r400]
+    | app k => simp [Char, faceCreate, validity, hp, r400]
+    | args a =>
+      cases hu : a.uri with
+      | none => simp [Char, faceCreate, validity, hp, hu, r400]
+      | some u =>
+        cases hc : uriClass u with
+        | none => simp [Char, faceCreate, validity, hp, hu, hc]
+        | some c =>
+          cases c with
+          | early => simp [Char, faceCreate, validity, hp, hu, hc]
+          | late =>
+            by_cases hfm : flagsMaskOk a.flags a.mask = true <;> simp [Char, faceCreate, validity, hp, hu, hc, hfm]
+          | udp canon =>
+            have := createOn_char st f name a u (.udp canon) canon hp hu hc (Or.inl rfl) hid
+            simpa [faceCreate, hp, hu, hc] using this
+          | tcp canon =>
+            have := createOn_char st f name a u (.tcp canon) canon hp hu hc (Or.inr rfl) hid
+            simpa [faceCreate, hp, hu, hc] using this
+  · simp [Char, faceCreate, validity, hp, r400]
+
 /-! ### module and dispatch level -/
 
 /-- the dataset lists the tables of `st` -/
 def DatasetOf (st : St) (d : Dataset) : Prop :=
   d = .rib st.rib ∨ d = .fib st.fib ∨ d = .sc st.sc ∨ d = .cs (toU64 st.cs) 3 0 ∨ d = .status st.fib.length ∨
-  d = .faces st.faces
+  d = .faces st.faces ∨ ∃ q, d = .query q (st.faces.filter (filterMatch q))
 
 /-- outcomes that change no table: nothing, a non-200 answer, or a dataset of the current tables -/
 def Benign (st : St) (res : St × Resp) : Prop :=
-  tbl res.1 = tbl st ∧ res.1.lh = st.lh ∧
+  tbl res.1 = tbl st ∧ res.1.lh = st.lh ∧ res.1.nextFace = st.nextFace ∧
   (res.2 = .none ∨ (∃ c e, res.2 = .ctrl c e ∧ c ≠ 200) ∨ (∃ pfx mv v d, res.2 = .dataset pfx mv v d ∧ DatasetOf st d))
 
 theorem benign_none (st : St) : Benign st (st, .none) := by simp [Benign]
 theorem benign_ctrl (st : St) (c : Nat) (e : Args) (h : c ≠ 200) : Benign st (st, .ctrl c e) := by simp [Benign, h]
-theorem benign_dataset (st st' : St) (h : tbl st' = tbl st) (hl : st'.lh = st.lh) (pfx : Name) (mv : String) (v : Nat)
+theorem benign_dataset (st st' : St) (h : tbl st' = tbl st) (hl : st'.lh = st.lh) (hn : st'.nextFace = st.nextFace) (pfx : Name) (mv : String) (v : Nat)
     (d : Dataset) (hd : DatasetOf st d) : Benign st (st', .dataset pfx mv v d) :=
-  ⟨h, hl, Or.inr (Or.inr ⟨pfx, mv, v, d, rfl, hd⟩)⟩
+  ⟨h, hl, hn, Or.inr (Or.inr ⟨pfx, mv, v, d, rfl, hd⟩)⟩
 
 theorem ribModule_char (st : St) (ext : Ext) (f : Nat) (name : Name) (p : Params) (v : Component)
     (hv : name[3]? = some v) :
@@ -357,10 +440,17 @@ theorem ribModule_char (st : St) (ext : Ext) (f : Nat) (name : Name) (p : Params
   cases hw : wordOf v <;> simp only []
   · exact ribRegister_char ..
   · exact ribUnregister_char ..
-  · exact benign_ctrl _ _ _ (by decide)
+  · unfold ribAnnounce
+    split
+    · exact benign_ctrl _ _ _ (by decide)
+    · split
+      · exact benign_ctrl _ _ _ (by decide)
+      · split
+        · exact benign_ctrl _ _ _ (by decide)
+        · split <;> exact benign_ctrl _ _ _ (by decide)
   · unfold ribList; split
     · exact benign_none _
-    · exact benign_dataset _ _ rfl rfl _ _ _ _ (Or.inl rfl)
+    · exact benign_dataset _ _ rfl rfl rfl _ _ _ _ (Or.inl rfl)
   all_goals exact benign_ctrl _ _ _ (by decide)
 
 theorem fibModule_char (st : St) (f : Nat) (name : Name) (p : Params) (v : Component)
@@ -377,7 +467,7 @@ theorem fibModule_char (st : St) (f : Nat) (name : Name) (p : Params) (v : Compo
   case list =>
     unfold fibList; split
     · exact benign_none _
-    · exact benign_dataset _ _ rfl rfl _ _ _ _ (Or.inr (Or.inl rfl))
+    · exact benign_dataset _ _ rfl rfl rfl _ _ _ _ (Or.inr (Or.inl rfl))
   all_goals exact benign_ctrl _ _ _ (by decide)
 
 theorem scModule_char (st : St) (f : Nat) (name : Name) (p : Params) (v : Component)
@@ -394,7 +484,7 @@ theorem scModule_char (st : St) (f : Nat) (name : Name) (p : Params) (v : Compon
   case list =>
     unfold scList; split
     · exact benign_none _
-    · exact benign_dataset _ _ rfl rfl _ _ _ _ (Or.inr (Or.inr (Or.inl rfl)))
+    · exact benign_dataset _ _ rfl rfl rfl _ _ _ _ (Or.inr (Or.inr (Or.inl rfl)))
   all_goals exact benign_ctrl _ _ _ (by decide)
 
 theorem csModule_char (st : St) (f : Nat) (name : Name) (p : Params) (v : Component)
@@ -409,7 +499,7 @@ theorem csModule_char (st : St) (f : Nat) (name : Name) (p : Params) (v : Compon
   case info =>
     unfold csInfo; split
     · exact benign_none _
-    · exact benign_dataset _ _ rfl rfl _ _ _ _ (Or.inr (Or.inr (Or.inr (Or.inl rfl))))
+    · exact benign_dataset _ _ rfl rfl rfl _ _ _ _ (Or.inr (Or.inr (Or.inr (Or.inl rfl))))
   case erase => exact benign_none _
   case query => exact benign_none _
   all_goals exact benign_ctrl _ _ _ (by decide)
@@ -424,14 +514,16 @@ theorem statusModule_benign (st : St) (name : Name) (v : Component) (hv : name[3
   case general =>
     split
     · exact benign_none _
-    · exact benign_dataset _ _ rfl rfl _ _ _ _ (Or.inr (Or.inr (Or.inr (Or.inr (Or.inl rfl)))))
+    · exact benign_dataset _ _ rfl rfl rfl _ _ _ _ (Or.inr (Or.inr (Or.inr (Or.inr (Or.inl rfl)))))
   all_goals exact benign_ctrl _ _ _ (by decide)
 
 theorem facesModule_char (st : St) (ext : Ext) (f : Nat) (name : Name) (p : Params) (v : Component)
-    (hv : name[3]? = some v) (hg : lhPrefix.isPrefixOf name = true) (hwf : FacesWF st.faces) :
+    (hv : name[3]? = some v) (hg : lhPrefix.isPrefixOf name = true) (hwf : FacesWF st.faces)
+    (hid : ∀ g ∈ st.faces, g.id < st.nextFace) :
     match wordOf v with
     | .update => Char st f .faceUpdate name p (facesModule st ext f name p)
     | .destroy => Char st f .faceDestroy name p (facesModule st ext f name p)
+    | .create => Char st f .faceCreate name p (facesModule st ext f name p)
     | _ => Benign st (facesModule st ext f name p) := by
   unfold facesModule
   simp only [hv, hg]
@@ -441,11 +533,19 @@ theorem facesModule_char (st : St) (ext : Ext) (f : Nat) (name : Name) (p : Para
   case list =>
     unfold faceList; split
     · exact benign_none _
-    · exact benign_dataset _ _ rfl rfl _ _ _ _ (Or.inr (Or.inr (Or.inr (Or.inr (Or.inr rfl)))))
-  case create => exact benign_none _
-  case query => exact benign_none _
+    · exact benign_dataset _ _ rfl rfl rfl _ _ _ _ (Or.inr (Or.inr (Or.inr (Or.inr (Or.inr (Or.inl rfl))))))
+  case create => exact faceCreate_char _ _ _ _ hid
+  case query =>
+    unfold faceQuery; split
+    · exact benign_none _
+    · split
+      · exact benign_dataset _ _ rfl rfl rfl _ _ _ _ (Or.inr (Or.inr (Or.inr (Or.inr (Or.inr (Or.inr ⟨_, rfl⟩))))))
+      · exact benign_none _
   all_goals exact benign_ctrl _ _ _ (by decide)
 
+
+/-- faces management may update are NDNLPv2 faces; face ids lie below the table's counter -/
+def WF0 (st : St) : Prop := FacesWF st.faces ∧ ∀ g ∈ st.faces, g.id < st.nextFace
 
 /-- the name-part of being authorised: what `Thread.Run` and the module guards let through -/
 def mgmtAccepts (lh : Bool) (name : Name) : Bool :=
@@ -455,7 +555,7 @@ theorem verbOf_none_of_short (name : Name) (h : name.length < 4) : verbOf name =
   have h3 : name[3]? = none := by simp; omega
   unfold verbOf; simp [h3]
 
-theorem run_char (st : St) (ext : Ext) (f : Nat) (name : Name) (p : Params) (hwf : FacesWF st.faces) :
+theorem run_char (st : St) (ext : Ext) (f : Nat) (name : Name) (p : Params) (hwf : WF0 st) :
     match verbOf name with
     | some v => if mgmtAccepts st.lh name then Char st f v name p (run st ext f name p)
                 else run st ext f name p = (st, .none)
@@ -472,7 +572,7 @@ theorem run_char (st : St) (ext : Ext) (f : Nat) (name : Name) (p : Params) (hwf
       cases hmod : modOf m <;> simp only []
       · have := csModule_char st f name p v hv hl
         cases hw : wordOf v <;> simp_all [verbOf]
-      · have := facesModule_char st ext f name p v hv hl hwf
+      · have := facesModule_char st ext f name p v hv hl hwf.1 hwf.2
         cases hw : wordOf v <;> simp_all [verbOf]
       · have := fibModule_char st f name p v hv hl
         cases hw : wordOf v <;> simp_all [verbOf]
@@ -606,9 +706,14 @@ theorem specFaceAfter_mtu (f : Face) (a : Args) :
     simp [applyFlags_mtu]
 
 /-- the specification's own effects keep the tables usable -/
-theorem effect_usable (t : Tables) (f : Nat) (v : Verb) (hasP : Bool) (a : Args)
+theorem newFace_mtu (id : Nat) (c : UriClass) (canon : String) (a : Args) :
+    (newFace id c canon a).mtu = match a.mtu with | some m => (if m > maxPacket then maxPacket else m) | none => maxPacket := by
+  unfold newFace
+  cases a.flags <;> cases a.mask <;> simp [applyFlags_mtu] <;> rfl
+
+theorem effect_usable (t : Tables) (f : Nat) (v : Verb) (hasP : Bool) (a : Args) (newId : Nat)
     (hv : validity t f v hasP (.args a) = .valid) (hu : usable t = true) :
-    usable (effect t f v a).t = true := by
+    usable (effect t f v a newId).t = true := by
   rw [usable_iff] at hu ⊢
   obtain ⟨hsc, hfa, hcs⟩ := hu
   cases v <;> simp only [effect]
@@ -662,7 +767,67 @@ theorem effect_usable (t : Tables) (f : Nat) (v : Verb) (hasP : Bool) (a : Args)
               · omega
           simp only [specMaxOverhead]
           split <;> omega
-  case faceDestroy => exact ⟨hsc, fun g hg => hfa g (mem_faceRemove hg), hcs⟩
+  case faceDestroy =>
+    split
+    · exact ⟨hsc, fun g hg => hfa g (mem_faceRemove hg), hcs⟩
+    · exact ⟨hsc, hfa, hcs⟩
+  case faceCreate =>
+    have key : ∀ c canon, (a.uri.bind uriClass) = some c → ∀ g ∈ t.faces ++ [newFace newId c canon a], specMaxOverhead < g.mtu := by
+      intro c canon hc g hg
+      rcases List.mem_append.1 hg with h | h
+      · exact hfa g h
+      · simp at h; subst h
+        rw [newFace_mtu]
+        simp only [validity] at hv
+        cases hasP <;> simp at hv
+        cases hu' : a.uri with
+        | none => simp [hu'] at hv
+        | some u =>
+          simp only [hu', Option.bind] at hc
+          simp only [hu', hc] at hv
+          have hm : mtuClass a.mtu = .valid := by
+            cases c with
+            | late => simp at hv
+            | early => simp at hv
+            | udp cn =>
+              by_cases h1 : flagsMaskOk a.flags a.mask = true
+              · by_cases h2 : ∃ x, x ∈ t.faces ∧ x.uri = cn
+                · simp [h1, h2] at hv
+                · by_cases h3 : createPersOk a.pers = true
+                  · simpa [h1, h2, h3] using hv
+                  · simp [h1, h2, h3] at hv
+              · simp [h1] at hv
+            | tcp cn =>
+              by_cases h1 : flagsMaskOk a.flags a.mask = true
+              · by_cases h2 : ∃ x, x ∈ t.faces ∧ x.uri = cn
+                · simp [h1, h2] at hv
+                · by_cases h3 : createPersOk a.pers = true
+                  · simpa [h1, h2, h3] using hv
+                  · simp [h1, h2, h3] at hv
+              · simp [h1] at hv
+          cases hmm : a.mtu with
+          | none => simp [specMaxOverhead, maxPacket]
+          | some m =>
+            have hm64 : 64 ≤ m := by
+              rw [hmm] at hm
+              unfold mtuClass specMaxOverhead specMinMtu at hm
+              by_cases h1 : m ≤ 60
+              · simp [h1] at hm
+              · by_cases h2 : m < 64
+                · simp [h1, h2] at hm
+                · omega
+            simp only [specMaxOverhead, maxPacket]
+            by_cases h88 : m > 8800
+            · simp [h88]
+            · simp [h88]; omega
+    cases hc : a.uri.bind uriClass with
+    | none => exact ⟨hsc, hfa, hcs⟩
+    | some c =>
+      cases c with
+      | udp canon => exact ⟨hsc, key _ canon hc, hcs⟩
+      | tcp canon => exact ⟨hsc, key _ canon hc, hcs⟩
+      | late => exact ⟨hsc, hfa, hcs⟩
+      | early => exact ⟨hsc, hfa, hcs⟩
 
 
 /-! ### authorisation vs. what the code lets through -/
@@ -742,7 +907,7 @@ def post (face : Nat) (r : St × Resp) : St × Resp :=
   | x => if (faceGet r.1.faces face).isSome then (r.1, x) else (r.1, .none)
 
 theorem sysStep_char (st : St) (ext : Ext) (routed : Bool) (face : Nat) (name : Name) (p : Params)
-    (hwf : FacesWF st.faces) :
+    (hwf : WF0 st) :
     (sysStep st ext routed face name p = (st, .none) ∧ (authorised st.lh st.faces face name && routed) = false) ∨
     (fwGuard st face name = true ∧ routed = true ∧ sysStep st ext routed face name p = post face (run st ext face name p) ∧
       match verbOf name with
@@ -785,7 +950,8 @@ theorem sysStep_char (st : St) (ext : Ext) (routed : Bool) (face : Nat) (name : 
 theorem char_cases {st : St} {f : Nat} {v : Verb} {name : Name} {p : Params} {res : St × Resp}
     (h : Char st f v name p res) :
     (validity (tablesOf st) f v (hasParams name) p = .valid ∧ ∃ a, p = .args a ∧
-        res.2 = .ctrl 200 (effect (tablesOf st) f v a).echo ∧ Agrees res.1 st (effect (tablesOf st) f v a)) ∨
+        res.2 = .ctrl 200 (effect (tablesOf st) f v a (modelNewId v st)).echo ∧
+        Agrees res.1 st (effect (tablesOf st) f v a (modelNewId v st))) ∨
     (validity (tablesOf st) f v (hasParams name) p ≠ .valid ∧ res.1 = st ∧
         ∃ c e, res.2 = .ctrl c e ∧ 400 ≤ c ∧ c < 500) := by
   unfold Char at h
@@ -817,7 +983,7 @@ theorem fwGuard_face {st : St} {face : Nat} {name : Name} (h : fwGuard st face n
   cases hf : faceGet st.faces face <;> simp_all
 
 /-- model-state invariant: updatable faces are NDNLPv2 faces, the CS capacity is a non-negative int -/
-def StWF (st : St) : Prop := FacesWF st.faces ∧ 0 ≤ st.cs ∧ st.cs ≤ (maxInt : Int)
+def StWF (st : St) : Prop := WF0 st ∧ 0 ≤ st.cs ∧ st.cs ≤ (maxInt : Int)
 
 theorem toU64_of_nonneg {i : Int} (h0 : 0 ≤ i) (h1 : i ≤ (maxInt : Int)) : ((toU64 i : Nat) : Int) = i := by
   unfold toU64 u64
@@ -840,16 +1006,31 @@ inductive Shape (st : St) (o : Obs) : Prop
       (hnv : ∀ v, verbOf o.name = some v → o.auth = true → o.routed = true → False)
   | accepted (v : Verb) (a : Args) (hv : verbOf o.name = some v) (hp : o.params = .args a)
       (hval : validity o.before o.face v o.hasP o.params = .valid) (hauth : o.auth = true) (hr : o.routed = true)
-      (hm : (effect o.before o.face v a).matches o.after = true)
+      (nid : Nat)
+      (hnid : effect o.before o.face v a (newIdOf v (effect o.before o.face v a nid).echo) = effect o.before o.face v a nid)
+      (hm : (effect o.before o.face v a nid).matches o.after = true)
       (hu : usable o.before = true → usable o.after = true)
-      (hout : o.out = .ctrl 200 (effect o.before o.face v a).echo ∨ (o.out = .none ∧ o.requesterGone = true))
+      (hout : o.out = .ctrl 200 (effect o.before o.face v a nid).echo ∨ (o.out = .none ∧ o.requesterGone = true))
+
+theorem newFace_id (id : Nat) (c : UriClass) (canon : String) (a : Args) : (newFace id c canon a).id = id := by
+  unfold newFace
+  cases a.flags <;> cases a.mask <;> simp [applyFlags_keep]
+
+/-- the id read back from the echoed parameters is the id the effect was computed with -/
+theorem effect_newId_fix (t : Tables) (f : Nat) (v : Verb) (a : Args) (st : St) :
+    effect t f v a (newIdOf v (effect t f v a (modelNewId v st)).echo) = effect t f v a (modelNewId v st) := by
+  cases v <;> try rfl
+  simp only [modelNewId, newIdOf, effect]
+  cases hc : a.uri.bind uriClass with
+  | none => rfl
+  | some c => cases c <;> simp [faceFullProps, newFace_id]
 
 theorem usable_congr {t u : Tables} (h1 : t.sc = u.sc) (h2 : t.cs = u.cs) (h3 : t.faces = u.faces) :
     usable t = usable u := by
   simp [usable, h1, h2, h3]
 
 theorem obs_shape (st : St) (ext : Ext) (routed : Bool) (face : Nat) (name : Name) (p : Params)
-    (hwf : FacesWF st.faces) : Shape st (obsOf st ext routed face name p) := by
+    (hwf : WF0 st) : Shape st (obsOf st ext routed face name p) := by
   rcases sysStep_char st ext routed face name p hwf with ⟨h, hna⟩ | ⟨hg, hr, h, hv⟩
   · apply Shape.quiet
     · simp [obsOf, h, outcomeOf]
@@ -861,7 +1042,7 @@ theorem obs_shape (st : St) (ext : Ext) (routed : Bool) (face : Nat) (name : Nam
     cases hvo : verbOf name with
     | none =>
       simp only [hvo] at hv
-      obtain ⟨htb, _, h3⟩ := hv
+      obtain ⟨htb, _, _, h3⟩ := hv
       have haft : (obsOf st ext routed face name p).after = (obsOf st ext routed face name p).before := by
         simp only [obsOf, h, post_fst]; exact tablesOf_eq_of_tbl htb
       have hreq : (faceGet (run st ext face name p).1.faces face).isSome = true := by
@@ -881,12 +1062,13 @@ theorem obs_shape (st : St) (ext : Ext) (routed : Bool) (face : Nat) (name : Nam
       · simp only [ha, ↓reduceIte] at hv
         rcases char_cases hv with ⟨hval, a, hp, h3, hag⟩ | ⟨hval, hst, c, e, h3, hc1, hc2⟩
         · refine Shape.accepted v a (by simp [obsOf, hvo]) (by simp [obsOf, hp]) ?_ (by simp [obsOf, Obs.auth, tablesOf, ha])
-            (by simp [obsOf, hr]) ?_ ?_ ?_
+            (by simp [obsOf, hr]) (modelNewId v st) ?_ ?_ ?_ ?_
           · simpa [obsOf, Obs.hasP] using hval
+          · exact effect_newId_fix _ _ _ _ _
           · simp only [obsOf, h, post_fst]; exact agrees_matches hag
           · intro hu
             simp only [obsOf, h, post_fst] at hu ⊢
-            have := effect_usable (tablesOf st) face v (hasParams name) a (by rw [← hp]; exact hval) hu
+            have := effect_usable (tablesOf st) face v (hasParams name) a (modelNewId v st) (by rw [← hp]; exact hval) hu
             rw [← this]
             obtain ⟨_, _, _, _, _, _, _, hsc, hcs, hfa, _, _⟩ := hag
             exact usable_congr hsc hcs hfa
